@@ -233,6 +233,18 @@ func (c *Cat) RStrP(ctx context.Context) (*string, error) {
 }
 func (c *Cat) RI8(a int8) (int8, error) { c.in("RI8", a); return catOut[int8](c, "RI8") }
 
+// Status is a plain value type that happens to have an Error method (an exit-code or errno style enum);
+// RStatus returns it as its only result - a value, not the error output.
+type Status int
+
+func (s Status) Error() string { return fmt.Sprintf("status %d", int(s)) }
+
+func (c *Cat) RStatus() Status { c.in("RStatus"); v, _ := catOut[Status](c, "RStatus"); return v }
+func (c *Cat) RStatusE(a Status) (Status, error) {
+	c.in("RStatusE", a)
+	return catOut[Status](c, "RStatusE")
+}
+
 // ---- generator ----------------------------------------------------------------
 
 var strPool = []string{"", "a", "<>&", "  ", "\x00\x01\x1f", "\"quoted\\\"", "héllo wörld", "😀\U0001F9D1‍\U0001F680", "line\nbreak\ttab", "'", "null", "123", " lead", strings.Repeat("k", 65536), "�", "/\\/"}
